@@ -905,6 +905,36 @@ func c09Exec(t *testing.T, rng *vrng, transport string, plan []string) (c09In, c
 	return in, obs
 }
 
+// TestVerifC09Batch: a few rounds in which several transactions of the account, mined with
+// different statuses or replaced, are resolved by one receipt batch (used as an extra harness by
+// C11: the stake / prepay operations learn their transaction's fate from these receipts)
+func TestVerifC09Batch(t *testing.T) {
+	out := newVout(t, "C09")
+	defer out.close()
+	rng := newVrng(vseed(), 911)
+	for i := 0; i < 10; i++ {
+		for _, tr := range []string{"mock", "rpc"} {
+			plan := []string{"send", "send", "send", "send", "watch", "watch", "watch", "round-all", "watch", "round-all", "close"}
+			caseNo := out.n
+			pre := c09In{Tag: "plan", Transport: tr, Plan: plan, Steps: []c09Step{}}
+			out.mu.Lock()
+			b, _ := json.Marshal(map[string]any{"p": "C09", "case": caseNo, "in": pre, "impl": c09Obs{Crashed: true, Waiters: []c09Waiter{}, Pending: []int{}}})
+			out.w.Write(b)
+			out.w.WriteByte('\n')
+			out.w.Flush()
+			out.mu.Unlock()
+			in, obs := c09Exec(t, rng, tr, plan)
+			out.mu.Lock()
+			b, _ = json.Marshal(map[string]any{"p": "C09", "case": caseNo, "in": in, "impl": obs})
+			out.w.Write(b)
+			out.w.WriteByte('\n')
+			out.w.Flush()
+			out.n++
+			out.mu.Unlock()
+		}
+	}
+}
+
 func TestVerifC09(t *testing.T) {
 	out := newVout(t, "C09")
 	defer out.close()
